@@ -28,6 +28,10 @@ func (f fault) String() string {
 		return fmt.Sprintf("fsize=%d", f.FSize)
 	case "input":
 		return fmt.Sprintf("input:%s@%d", f.Input, f.Target)
+	case "stdout-fsize":
+		return fmt.Sprintf("stdout-fsize=%d:mode=%d", f.FSize, f.Target)
+	case "stdout-inject":
+		return fmt.Sprintf("stdout-inject:%s:%s:when=%d:mode=%d", f.Syscall, f.Errno, f.When, f.Target)
 	case "fsize-longname":
 		return fmt.Sprintf("fsize=%d+long-name@%d", f.FSize, f.Target)
 	case "inject-fsize":
@@ -121,6 +125,26 @@ func c16Faults(tier string) []fault {
 			out = append(out, fault{Kind: "input", Input: in, Target: t})
 		}
 	}
+	// (c) dry-run modes: standard output is a file, and writing it fails or is cut short (gopatch --print-only ... > new.go)
+	pk := []int64{0, 1, 10, 100, 500, 1000, 2000, 4096, 8192, 20000, 60000, 65536, 70000, 200000}
+	if tier == "thorough" {
+		pk = nil
+		for k := int64(0); k <= 140000; k += 997 {
+			pk = append(pk, k)
+		}
+	}
+	for _, k := range pk {
+		for t := 0; t < 4; t++ {
+			out = append(out, fault{Kind: "stdout-fsize", FSize: k, Target: t})
+		}
+	}
+	for _, e := range []string{"ENOSPC", "EIO"} {
+		for w := 1; w <= 6; w++ {
+			for t := 0; t < 4; t++ {
+				out = append(out, fault{Kind: "stdout-inject", Syscall: "write", Errno: e, When: w, Target: t})
+			}
+		}
+	}
 	c16FaultsCache[tier] = out
 	return out
 }
@@ -143,9 +167,136 @@ func init() {
 	})
 }
 
+// runC16Stdout: --print-only / --diff / -v runs whose standard output is a file that cannot take everything. Nothing on
+// disk may change, and a run whose output did not arrive complete must not look like a success.
+func runC16Stdout(ctx *core.Ctx, idx int, ft fault) *core.Result {
+	res := &core.Result{}
+	r := ctx.Rand("c16out", idx)
+	g := gen.NewG(r)
+	mode := [][]string{{"--print-only"}, {"--diff"}, {"--print-only", "-v"}, {"-v"}}[ft.Target%4]
+	n := 1 + r.Intn(5)
+	base, _ := os.MkdirTemp(ctx.Tmp, "c16o")
+	defer os.RemoveAll(base)
+	tree := filepath.Join(base, "tree")
+	os.MkdirAll(tree, 0o755)
+	patch := "# bump\n@@\nvar x expression\n@@\n-bump(x)\n+bump(x + 1)\n"
+	os.WriteFile(filepath.Join(base, "p.patch"), []byte(patch), 0o644)
+	var names []string
+	src := map[string]string{}
+	write := func() {
+		for nme, s := range src {
+			os.WriteFile(filepath.Join(tree, nme), []byte(s), 0o644)
+		}
+	}
+	for f := 0; f < n; f++ {
+		var plants []gen.Plant
+		if r.Intn(4) > 0 { // unmatched files are echoed by --print-only
+			for i := 0; i < 1+r.Intn(3); i++ {
+				plants = append(plants, gen.Plant{Kind: "expr", Text: "bump(" + g.Atom() + ")"})
+			}
+		}
+		s := g.File(gen.FileOpts{Plants: plants, Decls: 1 + r.Intn(8)})
+		if r.Intn(3) == 0 {
+			s += "\nvar pad = `" + strings.Repeat("pad ", r.Intn(20000)) + "`\n"
+		}
+		nme := fmt.Sprintf("f%d.go", f)
+		names = append(names, nme)
+		src[nme] = s
+	}
+	write()
+	args := append(append([]string{"-p", "../p.patch"}, mode...), names...)
+	inPlace := len(mode) == 1 && mode[0] == "-v"
+	// fault-free run: the complete output
+	full := ctx.RunCLI(core.CLIOpts{Dir: tree, Args: args, Env: []string{"GOMAXPROCS=1"}, StdoutFile: filepath.Join(base, "full.txt")})
+	patched := map[string]string{}
+	for _, nme := range names {
+		b, _ := os.ReadFile(filepath.Join(tree, nme))
+		patched[nme] = string(b)
+	}
+	write()
+	outPath := filepath.Join(base, "out.txt")
+	opts := core.CLIOpts{Dir: tree, Args: args, Env: []string{"GOMAXPROCS=1"}, StdoutFile: outPath}
+	var cr *core.CLIResult
+	raw := ""
+	if ft.Kind == "stdout-fsize" {
+		k := ft.FSize
+		if inPlace {
+			k = ft.FSize % 4096 // the limit also applies to the files written in place: keep it in the range that cuts them
+		}
+		opts.FSize = &k
+		cr = ctx.RunCLI(opts)
+	} else {
+		cr, _, raw = ctx.RunCLIStrace(opts, "-P", outPath, "-e", fmt.Sprintf("inject=%s:error=%s:when=%d", ft.Syscall, ft.Errno, ft.When))
+	}
+	res.Evals++
+	stderr := string(cr.Stderr)
+	rep := map[string]string{"fault.txt": ft.String() + "\nargs: " + strings.Join(args, " ") + " > out.txt", "p.patch": patch, "stderr.txt": stderr, "strace.txt": core.Trunc(raw, 20000),
+		"out.txt": core.Trunc(string(cr.Stdout), 4000)}
+	killed := cr.Exit == -1
+	if cc := cr.CrashClass(); cc != "" && !(killed && strings.Contains(cr.Signal, "file size")) {
+		res.Violate("C16/"+cc, stderr, rep)
+		return res
+	}
+	for _, nme := range names {
+		b, _ := os.ReadFile(filepath.Join(tree, nme))
+		switch got := string(b); {
+		case got == src[nme]:
+		case inPlace && got == patched[nme]:
+		default:
+			rep["tree/"+nme], rep["actual-"+nme] = src[nme], got
+			res.Violate("C16/half-written-file", fmt.Sprintf("[%s %v] %s holds neither its original nor its complete patched bytes", ft, mode, nme), rep)
+			return res
+		}
+	}
+	// the -v log shares standard output with the payload; a lost log line is not a file that could not be processed
+	payload := func(out string) string {
+		var keep []string
+		for _, l := range strings.SplitAfter(out, "\n") {
+			t := strings.TrimSuffix(l, "\n")
+			if strings.HasPrefix(t, tree+"/") && (strings.HasSuffix(t, ": patched") || strings.HasSuffix(t, ": skipped")) {
+				continue
+			}
+			keep = append(keep, l)
+		}
+		return strings.Join(keep, "")
+	}
+	pf, pg := payload(string(full.Stdout)), payload(string(cr.Stdout))
+	complete := pg == pf || (strings.HasPrefix(pg, pf) && strings.HasPrefix(tree+"/", pg[len(pf):]) || strings.HasPrefix(pg, pf) && strings.HasPrefix(pg[len(pf):], tree+"/"))
+	if full.Exit != 0 {
+		res.Inconcl++
+		return res
+	}
+	if complete {
+		res.Ob("faults-not-reached:"+ft.Kind, 1)
+		if cr.Exit != 0 && !inPlace {
+			res.Violate("C16/failure-although-output-complete", fmt.Sprintf("[%s %v] exit %d: %s", ft, mode, cr.Exit, core.Trunc(stderr, 300)), rep)
+		}
+		return res
+	}
+	res.Ob("faults-fired:"+ft.Kind, 1)
+	res.Sig(ft.Kind, ft.Errno, ft.FSize, ft.When, strings.Join(mode, " "), n)
+	if killed {
+		res.Ob("killed-by-file-size-signal", 1)
+		return res
+	}
+	if cr.Exit == 0 {
+		res.Violate("C16/exit-0-although-output-was-cut-short", fmt.Sprintf("[%s %v] %d of %d bytes of standard output arrived, exit 0, stderr %q", ft, mode, len(cr.Stdout), len(full.Stdout), core.Trunc(stderr, 200)), rep)
+		return res
+	}
+	low := strings.ToLower(stderr)
+	if !strings.Contains(low, "file too large") && !strings.Contains(low, "no space left") && !strings.Contains(low, "input/output error") {
+		res.Violate("C16/stderr-does-not-name-cause", fmt.Sprintf("[%s %v] exit %d but stderr names no cause: %s", ft, mode, cr.Exit, core.Trunc(stderr, 300)), rep)
+	}
+	res.Sample(map[string]any{"fault": ft.String(), "mode": strings.Join(mode, " "), "files": n, "exit": cr.Exit, "stdout_bytes": len(cr.Stdout), "stdout_complete_bytes": len(full.Stdout), "stderr": core.Trunc(stderr, 300)})
+	return res
+}
+
 func runC16(ctx *core.Ctx, idx int) *core.Result {
 	res := &core.Result{}
 	ft := c16Faults(ctx.Tier)[idx]
+	if strings.HasPrefix(ft.Kind, "stdout-") {
+		return runC16Stdout(ctx, idx, ft)
+	}
 	r := ctx.Rand("c16", idx)
 	g := gen.NewG(r)
 	n := 3 + r.Intn(5)
